@@ -673,8 +673,16 @@ def c16_compile(t, dump, tier):
         return res, stats
     if syntax_errors(M0, m0):
         return res, stats
-    subsets = [('go', 'python'), ('lua', 'rust', 'go', 'java', 'python', 'cpp'), ('cpp',), ('rust', 'java')]
-    for sub in subsets:
+    # (requested generators, output directory layout, what the output directories hold before the run)
+    #   own: one directory per language (the documented use)   shared: every language into one directory (file names do not collide)
+    #   longer: files of the same names with more bytes   same: the very files a previous identical compile left (newer than the DSL)
+    #   stale: files of the same names and the same length with other content
+    cases = [(('go', 'python'), 'own', 'longer'), (('lua', 'rust', 'go', 'java', 'python', 'cpp'), 'own', 'longer'), (('cpp',), 'own', 'longer'), (('rust', 'java'), 'own', 'longer'),
+             (('go', 'python'), 'shared', 'longer'), (('java', 'lua', 'python'), 'shared', 'none'), (('go', 'rust'), 'own', 'same'), (('python', 'cpp'), 'own', 'stale'),
+             (('go', 'java'), 'own', 'none')]
+    for sub, layout, pre in cases:
+        def dirof(g, layout=layout):
+            return '/out/shared' if layout == 'shared' else '/out/' + g
         # expected: union of dir/name -> bytes for the requested generators (each alone on a fresh model)
         want = {}
         ok = True
@@ -688,11 +696,13 @@ def c16_compile(t, dump, tier):
                 ok = False
                 break
             for k, v in filemap_to_py(M1, r[0]).items():
-                want['/out/%s/%s' % (g, k)] = v
+                want['%s/%s' % (dirof(g), k)] = v
         if not ok:
             continue
+        lib = seq_outputs(prog, dump, sub, dirof, layout)
+        label = '%s[%s,%s]' % ('+'.join(sub), layout, pre)
 
-        def run(c, sub=sub):
+        def run(c, sub=sub, pre=pre, dirof=dirof, lib=lib):
             M = make_machine(c)
             snap = Snapshot(prog, dump).load()
             state = {'deviated': False}
@@ -708,21 +718,25 @@ def c16_compile(t, dump, tier):
             M.map_order_hook = order_hook
             m = M.call(PARSER + '.VerifVisit', [snap.tree])
             M.env['parse_result'] = m
-            # pre-existing longer files in the output directories (a second compile into the same directory)
+            M.env['fs_readable'] = True
             for p in want:
-                M.env['fs'][p] = b'#' * (len(want[p]) + 17)
+                if pre == 'longer':
+                    M.env['fs'][p] = b'#' * (len(want[p]) + 17)
+                elif pre == 'same':
+                    M.env['fs'][p] = lib.get(p, want[p])
+                elif pre == 'stale':
+                    M.env['fs'][p] = b'#' * len(lib.get(p, want[p]))
             M.effects = []
             M.stdout = []
             outs = GoMap()
-            names = {'lua': 'lua', 'rust': 'rust', 'go': 'go', 'java': 'java', 'python': 'python', 'cpp': 'cpp'}
             for g in GENS:
-                outs.set(go_str(names[g]), go_str('/out/' + g) if g in sub else '')
+                outs.set(go_str(g), go_str(dirof(g)) if g in sub else '')
             err = M.call(MOD + '/cmd.Compile', [go_str('in.dsl'), outs])
             return err, dict(M.env['fs']), list(M.effects)
         try:
             ctl, paths = explore([], run, 64)
         except Unsupported as u:
-            stats['inconclusive'].append('compile %s: %s' % ('+'.join(sub), str(u)[:150]))
+            stats['inconclusive'].append('compile %s: %s' % (label, str(u)[:150]))
             continue
         for (kind, val), pc in paths:
             stats['paths'] += 1
@@ -737,21 +751,23 @@ def c16_compile(t, dump, tier):
             if got_names != sorted(want):
                 extra = sorted(set(got_names) - set(want))[:3]
                 miss = sorted(set(want) - set(got_names))[:3]
-                res.append(BFinding('C16', 'cmd:compile', t.tag, 'fileset-differs', 'compile -%s: extra files %s, missing %s' % ('+'.join(sub), extra, miss), {'text': t.text}))
+                res.append(BFinding('C16', 'cmd:compile', t.tag, 'fileset-differs' + ('' if (layout, pre) == ('own', 'longer') else ':%s,%s' % (layout, pre)),
+                                    'compile -%s: extra files %s, missing %s' % (label, [re.sub(r'RND\d+', 'RND', x) for x in extra], miss), {'text': t.text}))
                 continue
-            lib = seq_outputs(prog, dump, sub)
             bad = [p for p in sorted(lib) if fs.get(p) != lib[p]]
             if bad:
-                res.append(BFinding('C16', 'cmd:compile', t.tag, 'bytes-differ', 'compile -%s: %s on disk differs from the generator\'s bytes (%d vs %d bytes)' % (
-                    '+'.join(sub), bad[0], len(fs.get(bad[0]) or b''), len(lib[bad[0]])), {'text': t.text}))
+                res.append(BFinding('C16', 'cmd:compile', t.tag, 'bytes-differ' + ('' if (layout, pre) == ('own', 'longer') else ':%s,%s' % (layout, pre)),
+                                    'compile -%s: %s on disk differs from the generator\'s bytes (%d vs %d bytes)' % (
+                    label, bad[0], len(fs.get(bad[0]) or b''), len(lib[bad[0]])), {'text': t.text}))
     return res, stats
 
 
 _SEQ = {}
 
 
-def seq_outputs(prog, dump, sub):
-    key = (id(dump), sub)
+def seq_outputs(prog, dump, sub, dirof=None, layout='own'):
+    dirof = dirof or (lambda g: '/out/' + g)
+    key = (id(dump), sub, layout)
     if key in _SEQ:
         return _SEQ[key]
     M = make_machine(PathCtl())
@@ -762,7 +778,7 @@ def seq_outputs(prog, dump, sub):
         if g in sub:
             r = M.call(PARSER + '.VerifGenerate', [go_str(g), m])
             for k, v in filemap_to_py(M, r[0]).items():
-                out['/out/%s/%s' % (g, k)] = v
+                out['%s/%s' % (dirof(g), k)] = v
     _SEQ[key] = out
     return out
 
